@@ -31,6 +31,7 @@ type WriteSet struct {
 	All    bool
 	Why    string // why All
 	Yields bool   // contains an interference point (lock, wait, channel operation)
+	Recvs  bool   // contains a channel receive / select (timer bookkeeping ghosts change)
 }
 
 func (w *WriteSet) add(name string, s Sort) {
@@ -56,6 +57,9 @@ func (w *WriteSet) merge(o *WriteSet) {
 	}
 	if o.Yields {
 		w.Yields = true
+	}
+	if o.Recvs {
+		w.Recvs = true
 	}
 	for k, v := range o.Vars {
 		if o.FreshOnly[k] {
@@ -225,7 +229,7 @@ func (g *Gen) run() {
 			g.vc.Def(g.model.allocatedBefore(sym, alloc0))
 		}
 		if _, ok := v.Type().Underlying().(*types.Slice); ok {
-			g.vc.AssumeAt("true", g.model.wfSlice(sym), "slice parameter is well-formed")
+			g.vc.AssumeAt("true", And(g.model.wfSlice(sym), g.model.allocatedBefore(g.model.slBase(sym), alloc0)), "slice parameter is well-formed and its array exists")
 		}
 	}
 	hasRecv := fn.Signature.Recv() != nil
@@ -731,6 +735,9 @@ func (g *Gen) enterLoop(li *loopInfo, b *ssa.BasicBlock, h *Heap, reach string) 
 		g.vc.AssumeAt(reach, App(">=", g.model.allocNow(h2), g.model.allocNow(h)), "allocation counter is monotone")
 		g.assumeMonotone(h, h2, reach, names)
 		g.assumeFreshOnly(h, h2, reach, ws)
+		if ws.Yields {
+			h2 = g.havocAcquires(h2, reach, ws.Recvs)
+		}
 	}
 	// phis are arbitrary
 	for _, in := range b.Instrs {
